@@ -91,7 +91,7 @@ func drain(r io.Reader, sizes []int, limit int) (out []byte, err error, stalled 
 		sizes = []int{32768}
 	}
 	buf := make([]byte, 32768)
-	zero := 0
+	zero, idle := 0, 0
 	for i := 0; ; i++ {
 		k := sizes[i%len(sizes)]
 		if k == 0 {
@@ -113,7 +113,8 @@ func drain(r io.Reader, sizes []int, limit int) (out []byte, err error, stalled 
 			if e != nil {
 				return out, e, false
 			}
-			if i > 4*(limit+100) {
+			idle++
+			if idle > 1000 { // a thousand reads in a row without a byte: the stream is not advancing
 				return out, nil, true
 			}
 			if e == nil && i%len(sizes) == len(sizes)-1 {
@@ -150,7 +151,7 @@ func drain(r io.Reader, sizes []int, limit int) (out []byte, err error, stalled 
 				return out, nil, true
 			}
 		} else {
-			zero = 0
+			zero, idle = 0, 0
 		}
 		if len(out) > limit+1<<20 {
 			return out, nil, true
